@@ -79,43 +79,44 @@ type Finding struct {
 }
 
 type PathResult struct {
-	Outcome      string // ok, panic, unsupported, unwind, infeasible, steps
-	Detail       string
-	Decisions    []Decision
-	NewWork      [][]Decision
-	Findings     []Finding
-	AssertsOK    map[string]int // label -> discharged count (unsat)
-	AssertsSeen  map[string]int
-	Trivial      int // obligations that folded to true by term identity
-	Unknown      []string
-	Assumes      int
-	Observes     map[string]string
-	Instrs       int64
-	Queries      int
-	InternalAsms []string
+	Outcome       string // ok, panic, unsupported, unwind, infeasible, steps
+	Detail        string
+	Decisions     []Decision
+	NewWork       [][]Decision
+	Findings      []Finding
+	AssertsOK     map[string]int // label -> discharged count (unsat)
+	AssertsSeen   map[string]int
+	Trivial       int // obligations that folded to true by term identity
+	SecondOpinion int // obligations unknown to the primary solver, unsat by the second
+	Unknown       []string
+	Assumes       int
+	Observes      map[string]string
+	Instrs        int64
+	Queries       int
+	InternalAsms  []string
 }
 
 // run is the per-path state.
 type run struct {
 	*Session
-	eng       *Engine
-	harness   string
-	decisions []Decision
-	pos       int
-	trace     []Decision
-	newWork   [][]Decision
-	pc        []*smt.Term
-	stats     runStats
-	res       *PathResult
-	undo      []undoRec
-	frozen    map[*value]string
-	frozenMaps []*omap
-	inputs    []*smt.Term // named inputs in creation order
-	inputSet  map[string]bool
-	loopCount map[interface{}]int
-	known     []knownClass // pending classes for the next Assert
-	maxInstr  int64
-	unwind    int
+	eng             *Engine
+	harness         string
+	decisions       []Decision
+	pos             int
+	trace           []Decision
+	newWork         [][]Decision
+	pc              []*smt.Term
+	stats           runStats
+	res             *PathResult
+	undo            []undoRec
+	frozen          map[*value]string
+	frozenMaps      []*omap
+	inputs          []*smt.Term // named inputs in creation order
+	inputSet        map[string]bool
+	loopCount       map[interface{}]int
+	known           []knownClass // pending classes for the next Assert
+	maxInstr        int64
+	unwind          int
 	pcFeasibleKnown bool
 }
 
@@ -432,6 +433,13 @@ func (i *interpreter) obligation(cond *smt.Term, label string) {
 		}
 	}
 	m, res := r.model(append([]*smt.Term{neg}, notK...)...)
+	if res == smt.Unknown {
+		// second opinion: a fresh z3 5.1.0 process, one-shot, longer time limit
+		if r.secondOpinion(append([]*smt.Term{neg}, notK...)) == smt.Unsat {
+			res = smt.Unsat
+			r.res.SecondOpinion++
+		}
+	}
 	switch res {
 	case smt.Unsat:
 		r.res.AssertsOK[label]++
@@ -459,4 +467,27 @@ func sortedKeys(m map[string]int) []string {
 	}
 	sort.Strings(ks)
 	return ks
+}
+
+// secondOpinion re-asks a query (path condition plus extra) of another solver from scratch.
+func (r *run) secondOpinion(extra []*smt.Term) smt.Result {
+	if len(r.eng.SecondSolverArgv) == 0 {
+		return smt.Unknown
+	}
+	s2, err := smt.NewSolver(r.ctx, "second", r.eng.SecondSolverArgv, r.eng.SolverTimeoutMs*3, "")
+	if err != nil {
+		return smt.Unknown
+	}
+	defer s2.Close()
+	for _, t := range r.pc {
+		s2.Assert(t)
+	}
+	for _, t := range extra {
+		s2.Assert(t)
+	}
+	res := s2.Check()
+	if len(s2.Errors) > 0 {
+		return smt.Unknown
+	}
+	return res
 }
